@@ -1270,5 +1270,11 @@ def shrink(c):
         yield d
 
 
+def extra_obligations(work):
+    # T-int: the part of the model that is re-translated from the current source
+    import translate_int
+    return translate_int.obligations(work, translate_int.FOR['C11'])
+
+
 if __name__ == '__main__':
     sys.exit(common.main(sys.modules[__name__]))
